@@ -77,7 +77,7 @@ View(s) ==
    \* C09: the expected successor of the current snapshot if it were deleted now
    survivor |-> IF s.meta.cur = NoSnap THEN NoSnap ELSE RefAfterDeleteCurrent(s.meta, s.ghost, s.meta.cur)]
 
-Out(h) == [ops |-> h, steps |-> [k \in 1..Len(h) |-> View(RunTrace(h)[k])]]
+Out(h) == LET t == RunTrace(h) IN [ops |-> h, steps |-> [k \in 1..Len(h) |-> View(t[k])]]
 
 Export == TLCGet("distinct") >= 0 /\ ndJsonSerialize(IOEnv.VERIF_OUT, SetToSeq({Out(h) : h \in Cases}))
 =============================================================================
